@@ -388,6 +388,13 @@ func transferRun(r *vkit.Run, ctl *hookctl.Ctl, idx int) {
 							r.Violation("commit-snapshot", idx, map[string]any{"message": "the ReadTxn returned by Commit lacks a row of the transaction " + tag})
 						}
 					}
+					// it is the state this commit published (Commit: "a ReadTxn that is the snapshot of the database at the time of commit"):
+					// a later transaction on the same tables must not show through
+					for i, ti := range set {
+						if got := concw.Get(rt, tabs[ti], "seq"); got != seen[i]+1 {
+							r.Violation("commit-snapshot", idx, map[string]any{"message": fmt.Sprintf("the ReadTxn returned by the Commit of %s shows seq=%d in table %d, the transaction wrote %d: it is not the state this commit published", tag, got, ti, seen[i]+1)})
+						}
+					}
 					checkSnap(rt, "commit-snapshot of "+tag)
 				} else {
 					abortedTags.Store(tag, true)
